@@ -66,7 +66,7 @@ def interval_adjustment_terms(ctx):
     b = ctx.builder(inline=lambda caller, call, callee: callee.name == "_adjust_called_contests")
     gi = ctx.fn(BM, "BootstrapElectionModel.get_aggregate_prediction_intervals")
     isum = b.summarize(gi, self_cls=cls)
-    TOPC = ("call", ("attr", SELF, "_is_top_level_aggregate"), (("param", "aggregate"),), ())
+    TOPC = ir.repo_call(("attr", SELF, "_is_top_level_aggregate"), [("aggregate", ("param", "aggregate"))])
     ir_ret = isum.ret()
     ctx.require(ir_ret[0] == "call" and len(ir_ret[2]) == 2, f"{gi.where()}: result is not PredictionIntervals(lower, upper)")
     LO, UP = ir_ret[2]
@@ -262,7 +262,7 @@ def check(ctx):
     gi = ctx.fn(BM, "BootstrapElectionModel.get_aggregate_prediction_intervals")
     ps = b.summarize(gp, self_cls=cls)
     isum = b.summarize(gi, self_cls=cls)
-    TOPC = ("call", ("attr", SELF, "_is_top_level_aggregate"), (("param", "aggregate"),), ())
+    TOPC = ir.repo_call(("attr", SELF, "_is_top_level_aggregate"), [("aggregate", ("param", "aggregate"))])
 
     # prediction ------------------------------------------------------------------------------
     pr = ps.ret()
